@@ -1,136 +1,45 @@
-import KpModel.Props.C08
-import KpModel.Codec.Time
+import KpModel.Xml.RoundTrip
 /-!
 # C03 — save followed by open is the identity on databases
-Property theorems only.  Proved for all inputs: the container round trip (`C03_framing`, from C01/C07), the
-inner-stream round trip in document order (`C01_stream_order`, in C08), and the codecs the XML mapping is built
-from — base64, time stamps (base64 of little-endian seconds since 0001-01-01), UUIDs, booleans.  The struct-level
-XML mapping (writer events → xml-rs contract → reader) is modelled faithfully (`Xml/Dump.lean`, `Xml/Parse.lean`);
-its round trip over the whole schema is stated as `C03_xml_full` and validated on every generated database by the
-correspondence op `xml` (the model's own round trip is re-run there too) — a test, labelled so.
+Property theorems only (lemmas: `Codec/Lemmas.lean`, `Xml/RoundTrip.lean`).
+
+Proved for all inputs:
+* the container round trip (`C03_framing`, from C01/C07) and the inner-stream round trip in document order
+  (`C01_stream_order`, in C08);
+* the codecs the XML mapping is built from — base64, time stamps, UUIDs, booleans, decimal numbers;
+* the struct-level XML mapping (writer events → xml-rs contract → reader) for `Value` (plain and protected, with the
+  key-stream cursor), `Times`, `CustomData`, `AutoType` and whole entries with their nested histories
+  (`C03_entry_roundtrip_partial`): for every entry of the stated domain, every key stream, every iteration order of
+  every map and every position of the cursor, what the writer emits is read back as an entry with the same fields
+  (maps compared as maps), the writer and the reader leaving the cursor at the same place.
+Not proved: groups, `Meta`, the document frame, and entries with tags or colours; the round trip over the whole schema
+is stated as `C03_xml_full` and validated on every generated database by the correspondence op `xml` — a test,
+labelled so.
 -/
 namespace Kp.Codec
 open Kp.Fmt
 
-theorem b64Val_b64Char : ∀ v, v < 64 → b64Val (b64Char v) = some v := by decide
-theorem b64Char_ne_pad : ∀ v, v < 64 → b64Char v ≠ '=' := by decide
-
-theorem ofNat_toNat (a : UInt8) : UInt8.ofNat a.toNat = a := by simp
-
 /-- base64 decoding inverts encoding, for every byte string -/
-theorem b64_roundtrip (b : Bytes) : b64Decode (b64Encode b) = some b := by
-  fun_induction b64Encode b with
-  | case1 => rfl
-  | case2 a =>
-    have ha := UInt8.toNat_lt a
-    have h1 : a.toNat / 4 < 64 := by omega
-    have h2 : a.toNat % 4 * 16 < 64 := by omega
-    simp only [b64Decode, b64Val_b64Char _ h1, b64Val_b64Char _ h2]
-    have : a.toNat % 4 * 16 % 16 = 0 := by omega
-    simp only [this, ↓reduceIte]
-    have e : a.toNat / 4 * 4 + a.toNat % 4 * 16 / 16 = a.toNat := by omega
-    rw [e, ofNat_toNat]
-  | case3 a b =>
-    have ha := UInt8.toNat_lt a
-    have hb := UInt8.toNat_lt b
-    have h1 : a.toNat / 4 < 64 := by omega
-    have h2 : a.toNat % 4 * 16 + b.toNat / 16 < 64 := by omega
-    have h3 : b.toNat % 16 * 4 < 64 := by omega
-    have n3 := b64Char_ne_pad _ h3
-    simp only [b64Decode, b64Val_b64Char _ h1, b64Val_b64Char _ h2, b64Val_b64Char _ h3]
-    have : b.toNat % 16 * 4 % 4 = 0 := by omega
-    simp only [this, ↓reduceIte]
-    have e1 : a.toNat / 4 * 4 + (a.toNat % 4 * 16 + b.toNat / 16) / 16 = a.toNat := by omega
-    have e2 : (a.toNat % 4 * 16 + b.toNat / 16) % 16 * 16 + b.toNat % 16 * 4 / 4 = b.toNat := by omega
-    rw [e1, e2, ofNat_toNat, ofNat_toNat]
-  | case4 a b c rest ih =>
-    have ha := UInt8.toNat_lt a
-    have hb := UInt8.toNat_lt b
-    have hc := UInt8.toNat_lt c
-    have h1 : a.toNat / 4 < 64 := by omega
-    have h2 : a.toNat % 4 * 16 + b.toNat / 16 < 64 := by omega
-    have h3 : b.toNat % 16 * 4 + c.toNat / 64 < 64 := by omega
-    have h4 : c.toNat % 64 < 64 := by omega
-    have n3 := b64Char_ne_pad _ h3
-    have n4 := b64Char_ne_pad _ h4
-    rw [b64Decode]
-    · simp only [b64Val_b64Char _ h1, b64Val_b64Char _ h2, b64Val_b64Char _ h3, b64Val_b64Char _ h4, ih]
-      have e1 : a.toNat / 4 * 4 + (a.toNat % 4 * 16 + b.toNat / 16) / 16 = a.toNat := by omega
-      have e2 : (a.toNat % 4 * 16 + b.toNat / 16) % 16 * 16 + (b.toNat % 16 * 4 + c.toNat / 64) / 4 = b.toNat := by omega
-      have e3 : (b.toNat % 16 * 4 + c.toNat / 64) % 4 * 64 + c.toNat % 64 = c.toNat := by omega
-      rw [e1, e2, e3, ofNat_toNat, ofNat_toNat, ofNat_toNat]
-    · intro a' _ _; exact n3 a'
-    · intro a' _; exact n4 a'
+theorem C03_b64_roundtrip (b : Bytes) : b64Decode (b64Encode b) = some b := b64_roundtrip b
 
-theorem b64Encode_length (b : Bytes) : (b64Encode b).length = (b.length + 2) / 3 * 4 := by
-  fun_induction b64Encode b with
-  | case1 => rfl
-  | case2 a => simp
-  | case3 a b => simp
-  | case4 a b c rest ih => simp only [List.length_cons, ih]; omega
-
-theorem leI64_toLeI64 (x : Int) (h1 : -9223372036854775808 ≤ x) (h2 : x ≤ 9223372036854775807) :
-    leI64 (toLeI64 x) = x := by
-  unfold leI64 toLeI64
-  by_cases hx : x ≥ 0
-  · simp only [hx, ↓reduceIte]
-    have hn : x.toNat < 18446744073709551616 := by omega
-    rw [le64_toLe64' _ hn]
-    have : x.toNat < 9223372036854775808 := by omega
-    simp only [this, ↓reduceIte]
-    omega
-  · simp only [hx, ↓reduceIte]
-    have hn : (x + 18446744073709551616).toNat < 18446744073709551616 := by omega
-    rw [le64_toLe64' _ hn]
-    have : ¬ ((x + 18446744073709551616).toNat < 9223372036854775808) := by omega
-    simp only [this, ↓reduceIte]
-    omega
-
-theorem toLeI64_length (x : Int) : (toLeI64 x).length = 8 := by simp [toLeI64]
-
-/-- a KDBX4 time stamp (base64 of the seconds since 0001-01-01) reads back as itself, for every whole second chrono can represent -/
-theorem timestamp_roundtrip (t : Int) (h1 : minDateTime ≤ t) (h2 : t ≤ maxDateTime) :
-    parseTimestamp (formatTimestamp t) = .ok t := by
-  unfold parseTimestamp formatTimestamp
-  have hlen : (b64Encode (toLeI64 (t - baseline))).length = 12 := by
-    rw [b64Encode_length, toLeI64_length]
-  have hiso : parseIso (String.ofList (b64Encode (toLeI64 (t - baseline)))) = none := by
-    unfold parseIso
-    rw [String.toList_ofList]
-    split
-    · rename_i heq
-      have := congrArg List.length heq
-      rw [hlen] at this
-      simp at this
-    · rfl
-  rw [hiso]
-  simp only [String.toList_ofList, b64_roundtrip, toLeI64_length, Nat.lt_irrefl, ↓reduceIte]
-  have hmin : minDateTime = -8334601315200 := by decide
-  have hmax : maxDateTime = 8210266876799 := by decide
-  have hb : baseline = -62135596800 := rfl
-  have htake : (toLeI64 (t - baseline)).take 8 = toLeI64 (t - baseline) := by
-    rw [List.take_of_length_le (by rw [toLeI64_length]; exact Nat.le_refl 8)]
-  rw [htake, leI64_toLeI64 _ (by omega) (by omega)]
-  have hi : i64Max / 1000 = 9223372036854775 := by decide
-  have c1 : ¬ (t - baseline > i64Max / 1000 ∨ t - baseline < -(i64Max / 1000)) := by rw [hi]; omega
-  simp only [c1, ↓reduceIte]
-  have c2 : ¬ (baseline + (t - baseline) < minDateTime ∨ baseline + (t - baseline) > maxDateTime) := by omega
-  simp only [c2, ↓reduceIte]
-  congr 1
-  omega
+/-- a KDBX4 time stamp reads back as itself, for every whole second chrono can represent -/
+theorem C03_timestamp_roundtrip (t : Int) (h1 : minDateTime ≤ t) (h2 : t ≤ maxDateTime) :
+    parseTimestamp (formatTimestamp t) = .ok t := timestamp_roundtrip t h1 h2
 
 end Kp.Codec
 
 namespace Kp.Xml
-open Kp.Codec
+open Kp.Fmt Kp.Codec
 
 /-- a UUID (16 bytes) written as base64 reads back as itself -/
-theorem uuid_roundtrip (u : Bytes) (h : u.length = 16) : parseUuid (b64Text u) = some u := by
-  simp [parseUuid, b64Text, String.toList_ofList, b64_roundtrip, h]
+theorem C03_uuid_roundtrip (u : Bytes) (h : u.length = 16) : parseUuid (b64Text u) = some u := uuid_roundtrip u h
 
 /-- booleans: written `True` / `False`, read case-insensitively -/
-theorem bool_roundtrip (b : Bool) : parseBool (boolText b) = some b := by
-  cases b <;> decide
+theorem C03_bool_roundtrip (b : Bool) : parseBool (boolText b) = some b := bool_roundtrip b
+
+/-- decimal numbers (`usize`) -/
+theorem C03_usize_roundtrip (n : Nat) (h : n < 18446744073709551616) : parseUsize (toString n) = some n :=
+  usize_roundtrip n h
 
 /-- C03's XML part at full strength: for every database in the lossless domain, every key stream and every
     map order, the reader applied to what the writer emits (through the xml-rs contract) returns the database. -/
@@ -139,6 +48,80 @@ def C03_xml_full (LosslessDomain : Content → Prop) : Prop :=
     (orders : List (List String)) (now : Int) (fresh : Bytes),
     LosslessDomain c → (∀ o n, (ks o n).length = n) → (∀ m, gunz (gz m) = some m) →
     ∃ used, parseContent ⟨ks, gunz, now, fresh⟩ (view (dumpContent ⟨ks, gz⟩ (fun _ => none) orders c).1 []) = .ok (c, used)
+
+
+/-- **values**: a plain or protected value is read back as itself, the reader's cursor ending where the writer's did —
+    for every key stream, every cursor position and whatever follows in the document -/
+theorem C03_value_roundtrip (denv : DEnv) (penv : Env) (u : Bytes → Option String) (v : Value)
+    (hks : ∀ o n, (penv.ks o n).length = n) (henv : denv.ks = penv.ks) (hv : ValueOk v)
+    (stk : List String) (off : Nat) (ords : Ords) :
+    ∃ evs off', Dumps (dumpValue denv v u) stk off ords true evs stk off' ords ∧ Reads (parseValue penv) evs off v off' := by
+  refine ⟨_, _, dumps_value denv u v stk off ords hv, ?_⟩
+  rw [henv]
+  exact reads_value penv v off hv hks
+
+/-- **times**: whatever order the time-stamp map is written in, it is read back as the same map -/
+theorem C03_times_roundtrip (t : Times) (ht : TimesOk t) (hn : KeysNodup t.times) (stk : List String) (off : Nat)
+    (ords : Ords) :
+    ∃ evs t', Dumps (dumpTimes t) stk off ords () evs stk off ords.tail ∧ Reads parseTimes evs off t' off ∧
+      t'.expires = t.expires ∧ t'.usageCount = t.usageCount ∧ ∀ k, t'.times.lookup k = t.times.lookup k :=
+  ⟨_, _, dumps_times t stk off ords (fun p hp => (ht.2 p (mem_ordered _ _ p hp)).1),
+    reads_times (ordered ords t.times) t off (fun p hp => (ht.2 p (mem_ordered _ _ p hp)).2) ht.1,
+    rfl, rfl, lookup_insertAll_ordered ords t.times hn⟩
+
+/-- **custom data**, protected items included -/
+theorem C03_customData_roundtrip (denv : DEnv) (penv : Env) (u : Bytes → Option String) (cd : CustomData)
+    (hks : ∀ o n, (penv.ks o n).length = n) (henv : denv.ks = penv.ks) (hcd : CdOk cd) (hn : KeysNodup cd)
+    (stk : List String) (off : Nat) (ords : Ords) :
+    ∃ evs off' cd', Dumps (dumpCustomData denv u cd) stk off ords true evs stk off' ords.tail ∧
+      Reads (parseCustomData penv) evs off cd' off' ∧ ∀ k, cd'.lookup k = cd.lookup k := by
+  refine ⟨_, _, _, dumps_customData denv u cd stk off ords (fun p hp => hcd p (mem_ordered _ _ p hp)), ?_,
+    lookup_insertAll_ordered ords cd hn⟩
+  rw [henv]
+  exact reads_customData penv (ordered ords cd) off (fun p hp => hcd p (mem_ordered _ _ p hp)) hks
+
+/-- **auto-type settings** with their associations, in order -/
+theorem C03_autoType_roundtrip (a : AutoType) (ha : AutoTypeOk a) (stk : List String) (off : Nat) (ords : Ords) :
+    ∃ evs, Dumps (dumpAutoType a) stk off ords () evs stk off ords ∧ Reads parseAutoType evs off a off :=
+  ⟨_, dumps_autoType a stk off ords ha, reads_autoType a off ha⟩
+
+/-- **entries** (partial: no tags, no colours): every entry of the domain `EntryOk`, with its nested histories to any
+    depth, written at any cursor position with any iteration orders of its maps, is read back as an equivalent entry
+    (`EntryEq`: equal field by field, maps compared as maps, histories entry by entry in order), the reader's cursor
+    ending where the writer's did.  `fd`, `fp` are the recursion budgets of writer and reader models. -/
+theorem C03_entry_roundtrip_partial (denv : DEnv) (penv : Env) (u : Bytes → Option String)
+    (hks : ∀ o n, (penv.ks o n).length = n) (henv : denv.ks = penv.ks) (e : Entry) (he : EntryOk e)
+    (fd fp : Nat) (hfd : entryDepth e ≤ fd) (hfp : 2 * entryDepth e ≤ fp) (stk : List String) (off : Nat) (ords : Ords) :
+    ∃ evs off' ords' e', Dumps (dumpEntry denv u fd e) stk off ords true evs stk off' ords' ∧
+      Reads (parseEntry penv fp) evs off e' off' ∧ EntryEq e e' := by
+  obtain ⟨evs, off', ords', e', h1, h2, h3, _⟩ :=
+    entry_rt denv u penv hks henv (entryDepth e) e (Nat.le_refl _) he fd fp hfd hfp stk off ords
+  exact ⟨evs, off', ords', e', h1, h2, h3⟩
+
+/-- the domain is inhabited by a non-trivial entry: a plain and a protected field, a time-stamp map, and a history
+    holding an older version -/
+example : EntryOk (.mk (List.replicate 16 7) [("Title", .unprotected "mail"), ("Password", .prot [1, 2, 3])] none []
+    ⟨false, 3, [("CreationTime", 0)]⟩ [] (some 4) none none none none (some true)
+    (some [.mk (List.replicate 16 7) [("Title", .unprotected "old")] none [] ⟨false, 0, []⟩ [] none none none none none none none])) := by
+  refine EntryOk.mk _ _ _ _ _ _ _ _ _ _ (by decide) ?_ (by unfold KeysNodup; decide) (by intro x h; cases h) ?_ (by unfold KeysNodup; decide) (by intro p h; cases h) (by unfold KeysNodup; decide)
+    (by intro n h; cases h; decide) (by intro b h; cases h) (by intro s h; cases h) ?_
+  · intro p hp
+    simp only [List.mem_cons, List.not_mem_nil, or_false] at hp
+    rcases hp with rfl | rfl
+    · exact ⟨⟨by decide, by decide⟩, ⟨by decide, Or.inr (by decide)⟩, by decide⟩
+    · exact ⟨⟨by decide, by decide⟩, trivial, by decide⟩
+  · refine ⟨by decide, ?_⟩
+    intro p hp
+    simp only [List.mem_cons, List.not_mem_nil, or_false] at hp
+    subst hp
+    exact ⟨by decide, by decide, by decide, by decide, by decide⟩
+  · refine HistOk.some _ (EntriesOk.cons _ _ ?_ EntriesOk.nil)
+    refine EntryOk.mk _ _ _ _ _ _ _ _ _ _ (by decide) ?_ (by unfold KeysNodup; decide) (by intro x h; cases h) ⟨by decide, by intro p h; cases h⟩ (by unfold KeysNodup; decide)
+      (by intro p h; cases h) (by unfold KeysNodup; decide) (by intro n h; cases h) (by intro b h; cases h) (by intro s h; cases h) HistOk.none
+    intro p hp
+    simp only [List.mem_cons, List.not_mem_nil, or_false] at hp
+    subst hp
+    exact ⟨⟨by decide, by decide⟩, ⟨by decide, Or.inr (by decide)⟩, by decide⟩
 
 end Kp.Xml
 
